@@ -132,7 +132,8 @@ fn case<const IV: u64>(out: &mut dyn Write, disk: bool, seed: u64, rng: &mut Rng
             for (k, call) in prog.into_iter().enumerate() {
                 let op = tid as u64 * 100_000 + k as u64;
                 lockpoint::set_op(op);
-                let ret = run_call::<IV>(&sys, &call);
+                let ret = std::panic::catch_unwind(std::panic::AssertUnwindSafe(|| run_call::<IV>(&sys, &call)))
+                    .unwrap_or_else(|_| "panic".to_string());
                 done.push(Done { thread: tid, op, call, ret });
             }
             lockpoint::set_thread(None, 0);
@@ -196,6 +197,7 @@ pub fn main(args: &Args) {
         } else {
             case::<1>(&mut *out, disk, seed, &mut r, threads, len);
         }
+        out.flush().unwrap();
     }
     out.flush().unwrap();
 }
